@@ -97,3 +97,29 @@ func (c *Client) VerifTryNumSubs() (n int, ok bool) {
 	defer c.subMux.RUnlock()
 	return len(c.subs), true
 }
+
+// VerifStoredItem is one entry of Subscription.items: the create request kept
+// for a recreation, under the monitored item id the server returned.
+type VerifStoredItem struct {
+	ID     uint32
+	NodeID string
+	Handle uint32
+}
+
+// VerifStoredItems returns Subscription.items.
+func (s *Subscription) VerifStoredItems() []VerifStoredItem {
+	s.itemsMu.Lock()
+	defer s.itemsMu.Unlock()
+	out := make([]VerifStoredItem, 0, len(s.items))
+	for id, it := range s.items {
+		v := VerifStoredItem{ID: id}
+		if it.req != nil && it.req.ItemToMonitor != nil && it.req.ItemToMonitor.NodeID != nil {
+			v.NodeID = it.req.ItemToMonitor.NodeID.String()
+		}
+		if it.req != nil && it.req.RequestedParameters != nil {
+			v.Handle = it.req.RequestedParameters.ClientHandle
+		}
+		out = append(out, v)
+	}
+	return out
+}
